@@ -93,7 +93,7 @@ CLAIMED = {
 # rules added after the first revision (validation rounds 2 and 3); appended to the level text / technique
 EXTRA = {
  'C18': "Also: No loop of the three state handlers is left early (every listed shard is handled); ElectLeader never writes through memory shared with its arguments (alias walk over slices, local struct fields and φ-nodes; x[:0:0] is fresh, x[:0] is not).",
- 'C01': "Also: the error of the deferred final flush in storeBuilder.Close reaches its named result and every footer write gates success; a commit reads the version it clones inside the write hold that installs the result; with CURRENT present a new journal is reachable only through a successful replay. The rollup's three manifest commits are ordered: the source's delete-rollup marks are committed before any target drops its reference marks (rule shared with C04). The obsolete-file scans of an open run only after a successful open, and a torn final manifest record ends the replay instead of failing it (F25, fixed); the rollup's reference cleaning requires the TRUE outcome of the source commit (F23, fixed; shared with C04).",
+ 'C01': "Also: the error of the deferred final flush in storeBuilder.Close reaches its named result and every footer write gates success; a commit reads the version it clones inside the write hold that installs the result; with CURRENT present a new journal is reachable only through a successful replay. The rollup's three manifest commits are ordered: the source's delete-rollup marks are committed before any target drops its reference marks (rule shared with C04). The obsolete-file scans of an open run only after a successful open, and a torn final manifest record ends the replay instead of failing it (F25, fixed); the rollup's reference cleaning requires the TRUE outcome of the source commit (F23, fixed; shared with C04). A table builder becomes a table file whenever it holds a key: flush and compaction decide by Count(), never by the number of value bytes (F26, fixed).",
  'C02': "Also: a commit's base version (GetSnapshot/GetCurrent/Clone) is read in the same write hold of the version-set mutex that installs the new version, so overlapping commits cannot clone one base. The pending-output claim of a new table file is dropped only after the commit that makes a version reference the file (flush and compaction).",
  'C03': "Also: a source block hands out field data only on the found-edge of the lookup of the requested field id; level-1 inputs of an L0 compaction pass through a set keyed by file number (each file merged once); the compaction job is single-flight (flag claimed by CompareAndSwap, job started only by the claimer). The per-block scanner of the merge advances to its next container only when its current high key is SMALLER than the requested one and answers only on an exact match; the series merger positions each input block's decoder with that block's own slot range and writes only what the encoder produced over the target range.",
  'C04': "Also: the rollup job is single-flight (CAS claim, no blind Store(true)); the reference record is written, looked up and deleted under the same key (source store, source family id, file). The series merger decodes every input block over the block's own slot range (rule shared with C03). The targets' reference records are cleaned only on the TRUE outcome of the source family's commit (F23, fixed); every requested source file becomes an input of the rollup merge or the work fails — a file compacted out of level 0 is not passed over (F24, fixed).",
@@ -106,7 +106,7 @@ EXTRA = {
  'C11': "Also: memory is filtered before the file snapshot is taken; a not-found answer of one part (mutable / immutable memory database, files) never discards the other parts (genuine defect F12, fixed); flush writes one positional entry per field for every series (data or empty). The end marker of a field's write buffer only grows (F13, fixed); AggType.Aggregate receives (stored, incoming) in write order at every call site (F14, fixed); a single-field block is delivered under the query position of its field (F15, fixed); a source block hands out field data only for a held field id (rule shared with C03); the per-family aggregator covers [(base+start)/ratio, (base+end)/ratio], both bounds mapped by the emitter's own expression.",
  'C12': "Also: the tag-value lookups return only the errors of the dictionary read: an OR/NOT atom that matches nothing on one node is an empty set, so the node does not answer 'not found' for series matching the rest of the condition. A per-shard plan node whose operator can produce ErrNotFound (call graph, CHA through interfaces, only functions that can hand a non-nil error back) is created with NewPlanNodeWithIgnore; the automatic group-by interval is derived from the ALIGNED time range, so planning the root's statement again on an intermediate node yields the same interval.",
  'C14': "Also: FixedOffsetDecoder.Unmarshal re-initialises every field on every exit, error exits included (callers keep using a decoder whose Unmarshal failed); the long-lived snappy reader resets its buffers and the s2 reader on every exit of Uncompress. The empty-slot sentinel is +Inf at the producer and at every consumer test (-Inf is a value); FixedOffsetEncoder.max is raised per element inside the scan over all offsets (FromValues) / per added value (Add); GetBlock accepts start == end.",
- 'C15': "Also: FindFiles, getOverlappingInputs and FindReaders visit every candidate file (no break/return out of the scan other than a failing exit). Snapshot.Load leaves its scan of the selected files only with an error; FixedOffsetDecoder.GetBlock accepts an empty range (a key stored with an empty value).",
+ 'C15': "Also: FindFiles, getOverlappingInputs and FindReaders visit every candidate file (no break/return out of the scan other than a failing exit). Snapshot.Load leaves its scan of the selected files only with an error; FixedOffsetDecoder.GetBlock accepts an empty range (a key stored with an empty value). A table builder becomes a table file whenever it holds a key: flush and compaction decide by Count(), never by the number of value bytes (F26, fixed).",
  'C16': "Also: a family group is the rows inside the family range of the group's first row, tested with TimeRange.Contains against the range built from that same timestamp, and handed out with that timestamp's family time; the line-protocol parser resets its row builder on every path from the loop test to the next line. The stored name hash is computed from exactly the namespace and name strings that are written into the row (after enrichment and sanitizing); the broker's write interval is element 0 of the very list that was sorted before.",
  'C17': "Also: no parser function takes a list from a helper that fills it inside a range over a map (e.g. strutil.DeDupStringSlice). A lexer / parser taken from the pool is put back only after the last step of the parse that uses it (token stream creation, parser.Statement(), tree walk).",
  'C19': "Also: on the query execution path recover() is called only by the two designated handlers (or a function they defer); planNode.ExecuteWithStats returns the operator's own error and its stats closure does not touch it. A stage that was counted as pending is completed with the error when its Plan()/Execute() panics in executeStage itself (deferred recover -> completeStage(stageID, err) dominating both calls; F21, fixed). The task's error is a latch: every store into baseTaskContext.err carries a provably non-nil error or is guarded by err == nil (F22, fixed).",
